@@ -4,6 +4,7 @@ go 1.24.9
 
 require (
 	github.com/andybalholm/brotli v1.1.1
+	github.com/google/uuid v1.6.0
 	github.com/klauspost/compress v1.17.9
 	github.com/parquet-go/parquet-go v0.0.0
 	github.com/pierrec/lz4/v4 v4.1.21
@@ -11,7 +12,6 @@ require (
 )
 
 require (
-	github.com/google/uuid v1.6.0 // indirect
 	github.com/parquet-go/bitpack v1.0.3 // indirect
 	github.com/parquet-go/jsonlite v1.5.5 // indirect
 	github.com/twpayne/go-geom v1.6.1 // indirect
